@@ -14,7 +14,7 @@
    and injected delays (tools/vlib/props/C11.py): that tokio, the futures/crossbeam channels,
    AtomicCell and Condvar implement these transitions. *)
 From BT Require Import Base.Util Base.Float Model.RTree Model.BBIFile Model.BigWigWrite Model.Pipeline
-  Proofs.PipelineInv Proofs.PipelineThms Proofs.PipelineConv.
+  Proofs.PipelineInv Proofs.PipelineThms Proofs.PipelineConv Proofs.PipelineLanes.
 From BT Require Model.TempBuf.
 
 (* FIFO order.  In every reachable state, for every completion order of the encode tasks, what the
@@ -121,6 +121,26 @@ Theorem C11_buffer_contract : forall (d0 : bytes) (secs : list sdata) (ws : list
 Proof. exact buffer_contract. Qed.
 Print Assumptions C11_buffer_contract.
 
+(* Several lanes (write_chroms_with_zooms: lane 0 the data region, lane z the zoom level z whose
+   destination is that level's own staging writer), sharing the main thread and the splice loop
+   (switch all lanes; then per lane: await the write task, await_real_file).  The projection of every
+   run onto a lane is a run of the single-lane machine (Proofs/PipelineLanes.v proj_run), hence for every
+   lane of every run: the destination always holds whole chromosomes in order, every lane's write task
+   keeps the submission order, and when the splice task has returned every lane holds the sequential
+   bytes and index. *)
+Theorem C11_lanes_splice : forall g Ps Sss K sched, g_fifo g = true ->
+  length Ps = length Sss -> (1 <= length Sss)%nat -> Forall (fun Ss => length Ss = K) Sss ->
+  let s := lrun g sched (linit Ps Sss) in
+  forall l, (l < length Sss)%nat ->
+    (exists n, nth l (l_files s) [] = nth l Ps [] ++ data_bytes (concat (firstn n (nth l Sss [])))) /\
+    (forall k c, nth_error (nth l (l_lanes s) []) k = Some c ->
+       c_out c ++ map fst (c_fifo c) ++ c_todo c = nth k (nth l Sss []) []) /\
+    (lterminal s = true ->
+       nth l (l_files s) [] = seq_file (nth l Ps []) (nth l Sss []) /\
+       place (Nlen (nth l Ps [])) (concat (map c_out (nth l (l_lanes s) []))) = seq_index (nth l Ps []) (nth l Sss [])).
+Proof. exact lanes_splice. Qed.
+Print Assumptions C11_lanes_splice.
+
 (* Converters (write_bg / write_bed): at every moment the output holds the text of a whole number of
    chromosomes in chromosome order, and every finishing run, for every interleaving of the driver, the
    K file tasks, the join task and the main loop, has written the single-threaded text. *)
@@ -185,6 +205,20 @@ Example C11_example_nonterminal :
   terminal (run ex_g [TMain; TSplice; TProd 0] (init [] ex_Ss)) = false /\
   sp_pc (run (mkg 1 1 true) [TMain; TProd 0; TEnc 0 0; TWrite 0; TProd 0; TEnc 0 0; TWrite 0; TProd 0; TEnc 0 0; TWrite 0;
                              TMain; TWrite 0; TSplice; TSplice] (init [] ex_Ss)) = SAwaitFile.
+Proof. vm_compute. repeat split. Qed.
+
+(* two lanes (data + one zoom level) over two chromosomes: the zoom lane of chromosome 1 is written before anything of
+   chromosome 0, the data lane of chromosome 0 last *)
+Definition ex_lanes : list (list (list sdata)) :=
+  [ [[sec 0 0 5 [1; 2]; sec 0 5 9 [3]]; [sec 1 0 7 [4]]];
+    [[sec 0 0 9 [50]];                  [sec 1 0 7 [51; 52]]] ].
+Fixpoint lrounds (n : nat) (l : list ltask) : list ltask := match n with O => [] | S m => l ++ lrounds m l end.
+Example C11_example_lanes :
+  let s := lrun ex_g ([LMain; LMain; LProd 1 1; LEnc 1 1 0; LWrite 1 1; LSplice; LSplice; LProd 1 0; LEnc 1 0 0; LWrite 1 0;
+                       LProd 0 1; LEnc 0 1 0; LWrite 0 1; LProd 0 0; LProd 0 0; LEnc 0 0 1; LEnc 0 0 0] ++
+                      lrounds 16 [LMain; LSplice; LWrite 0 0; LWrite 0 1; LWrite 1 0; LWrite 1 1])
+                (linit [[100]; [200]] ex_lanes) in
+  lterminal s = true /\ l_files s = [[100; 1; 2; 3; 4]; [200; 50; 51; 52]].
 Proof. vm_compute. repeat split. Qed.
 
 (* The theorems depend on the protocol: if the write task takes whichever encode task has completed
